@@ -250,3 +250,13 @@ func intOf(name string) int64 {
 	}
 	return v
 }
+
+var atomicMu sync.Mutex
+
+// Atomic runs f as one indivisible step of the harness (bookkeeping shared by harness threads): no scheduling
+// point inside, ordered after every earlier Atomic section.
+func Atomic(f func()) {
+	atomicMu.Lock()
+	defer atomicMu.Unlock()
+	f()
+}
